@@ -3,6 +3,7 @@ package props
 import (
 	"fmt"
 	"reflect"
+	"strings"
 
 	"github.com/tdewolff/parse/v2"
 	"github.com/tdewolff/parse/v2/js"
@@ -338,6 +339,30 @@ var c18Probes = []string{
 	"x = [1,,2]; [,a] = y; f([,]); for ([b,,c] of d);",
 	"class A { #p = 1; m(o) { return this.#p + o?.#p + o.#f() } #f(){} }",
 	"for (;;) break; for (; a < b; a++);",
+	"a: b: c: for (;;) { break b }",
+}
+
+func init() {
+	// trees deeper than 1000 nodes (the parser's limits count levels of source nesting, a level is two or three nodes) and
+	// left-deep operator chains of 100 and 300 operands
+	c18Probes = append(c18Probes,
+		"x = "+strings.Repeat("[", 520)+"leaf"+strings.Repeat("]", 520),
+		"y = "+strings.Repeat("f(", 360)+"leaf"+strings.Repeat(")", 360),
+		strings.Repeat("{", 700)+"leaf"+strings.Repeat("}", 700),
+		"z = a0"+func() string {
+			var sb strings.Builder
+			for i := 1; i <= 100; i++ {
+				fmt.Fprintf(&sb, "+a%d", i)
+			}
+			return sb.String()
+		}(),
+		"w = b0"+func() string {
+			var sb strings.Builder
+			for i := 1; i <= 300; i++ {
+				fmt.Fprintf(&sb, "*b%d", i)
+			}
+			return sb.String()
+		}())
 }
 
 // c18Future: programs in syntax newer than the pinned grammar. As long as js.Parse rejects them nothing is claimed; a
